@@ -1,9 +1,17 @@
 import PyamgV.Driver.Util
+import PyamgV.Model.ExtC17R5Mis
 
 namespace PyamgV.Drv.ExtE46
+open PyamgV PyamgV.Drv
 
-/-- line-protocol ops of extension E46 (filled in by the extension) -/
+/-- line-protocol ops of extension E46:
+* `c13r5_mis n ap aj w maxiter` — `split.MIS(G, w, maxiter)` (`maxiter` = `-` for `None`), rational weights -/
 def handle : List String → Option String
+  | ["c13r5_mis", n, ap, aj, w, mi] =>
+    let S : C13.Pat := ⟨nat n, parseNats ap, parseNats aj⟩
+    let wa := parseRats w
+    some (if !S.valid || wa.size != S.n then "invalid-input"
+      else showInts (C17R5.misSplit S wa (if mi = "-" then none else some (nat mi))))
   | _ => none
 
 end PyamgV.Drv.ExtE46
